@@ -1190,6 +1190,28 @@ def main():
         return '(mkSite %s %s %d %d %s %s %s %s %s %s)' % (
             q(s['id']), q(s['file']), s['stmt_line'], s['stmt_line_end'], q(s['func']), q(s['callee']), s['kind'],
             'true' if s['is_api'] else 'false', q(s['policy'].replace('"', "'")), s['body'])
+    # upward closures of the functions containing I/O sites (certificates: Coq checks them with
+    # Fault.up_closed, it does not trust this computation)
+    callers = {}
+    for x in sites:
+        if not x['io']:
+            callers.setdefault(x['callee'], set()).add(x['func'])
+    ups = []
+    for f in sorted(set(x['func'] for x in sites if x['io'])):
+        seen = [f]
+        todo = [f]
+        while todo:
+            g = todo.pop()
+            for h in sorted(callers.get(g, ())):
+                if h not in seen:
+                    seen.append(h)
+                    todo.append(h)
+        ups.append((f, seen))
+    o.append('(* for each function containing an I/O site: the function and all its direct and indirect callers *)')
+    o.append('Definition up_sets : list (string * list string) :=\n  [ %s ].' % ';\n    '.join(
+        '(%s, [%s])' % (q(f), '; '.join(q(g) for g in r)) for f, r in ups))
+    o.append('Definition up_set (f : string) : list string :=\n  match find (fun x => String.eqb (fst x) f) up_sets with Some x => snd x | None => [] end.')
+    o.append('')
     o.append('Definition io_sites : list site :=\n  [ %s ].' % ';\n    '.join(site_term(s) for s in sites if s['io']))
     o.append('')
     o.append('Definition link_sites : list site :=\n  [ %s ].' % ';\n    '.join(site_term(s) for s in sites if not s['io']))
